@@ -18,6 +18,10 @@ CHECKS = {
  "C03": ("Same module as C01; the environment also chooses how and at which step the pipeline fails (function error, fatal result, requirements that never stabilise) and changes the desired set; "
          "TLC judges FailSafe (no composed write, references untouched after an observation/pipeline failure), NeverDeleteDesired and GcExact (deleted = referenced, controllable, no longer desired) on the real traces.",
          "Two-step scripted pipeline (step 1 over-approximates, the last step decides); bounds as C01.", "DESIGN.md 3 C03"),
+ "C04": ("spec/Pipeline.tla is a reference interpreter of the function pipeline contract (step order, threading of desired state and context, one observation per reconcile, extra-resource rounds up to the bound, own input and credentials per step, result/condition surfacing, fatal stops) over a family of scripted programs, plus a model of the function-runner connection table; TLC enumerates pipelines of 1-3 programs x cluster contents x existing resources x transport and connection-table operation sequences; every vector is one run of the real composite.Reconciler + FunctionComposer + FetchingFunctionRunner + ExistingExtraResourcesFetcher (in process and over the real PackagedFunctionRunner on gRPC unix sockets); TLC judges 31 formulas (Order.*, Threading.*, SameObserved.*, Rounds.*, OwnInput.*, Final.*, Results.*, Routing.*, Reference.*) on every recorded call and outcome.",
+         "Programs are a fixed family (13 incl. requirement chasing, growing, relabelling, never stabilising, fatal); payload values are markers; TLS and real network transports are outside.", "DESIGN.md 3 C04"),
+ "C19": ("spec/Usage.tla models the Usage reconciler (one action per API call in code order, ok/fail/crash-after, two Usages interleaved call by call, selector resolution, composed Usages re-applied by the composer) with the environment (Usage creation by reference/selector, deletions of Usages, used and using resources, GC, delete requests through either served version with every propagation policy); schedules are replayed on the real usage Reconciler (one goroutine per Usage, gated) and the real webhook handler registered through SetupWebhookWithManager with the rules of cluster/webhookconfigurations/usage.yaml evaluated by simapi's delete admission; TLC judges Protected, Allowed, LabelFirst, LabelLast, Owned, IndexAgree, UsageAfterUser on every recorded state incl. admission probes for every used resource/version/policy.",
+         "Known finding D11 (stale unlabel by a deleting Usage after another Usage's no-op label write). Re-creation of resources, replayDeletion and webhook call faults are not modelled.", "DESIGN.md 3 C19"),
  "C05": ("spec/Conditions.tla states when Ready/Synced may be reported; TLC enumerates every combination of per-resource ready/apply/render outcomes, XR-level ready flag, function conditions (system and custom types), fatal result and prior conditions; each vector is two or three reconciles of the real composite.Reconciler with the real composers (and of the real claim.Reconciler with both syncers for the claim leg); TLC judges ReadyTruth, SyncedTruth, NoForgery, CustomKept, UnknownOnFatal, ClaimReady on the stored conditions.",
          "Exhaustive over the vector domain (6288 vectors) in both tiers; an erroring reconcile leaves the previous Ready condition: the property is read as a statement about what a reconcile newly asserts.", "DESIGN.md 3 C05"),
  "C06": ("spec/Claim.tla models the claim reconcile of both syncers (one action per API call in code order, ok/fail/crash-after variants, stale cached reads of any earlier claim version, claim deletion, XR controller steps, a pre-existing XR bound to another claim under any name incl. the referenced one); behaviours are replayed on the real claim.Reconciler with the real syncers and name generator over simapi (stale reads served from the stored history); TLC judges OneXR, RefFirst, NoHijack on every recorded state.",
